@@ -739,9 +739,16 @@ def at_start_assignment(f, P, st):
 
 def at_start_test(f, P, lab, ex=None):
     """a branch label that tests "nothing sent yet": `P == 0`, or `R.len() == data.len()` for the slice form.  True / False = the edge asserts it holds / does not hold; None = unrelated"""
-    if lab["kind"] != "cmp" or lab["op"] not in ("Eq", "Ne") or P is None:
+    if P is None:
         return None
     from rules.ipcl import _is_var
+    if lab["kind"] in ("val", "val_not") and position_kind(f, P) == "index" and "place" in lab and not lab["place"].get("p") and _is_var(f, {"k": "cp", "pl": lab["place"]}, P):
+        # `match position { 0 => .., _ => .. }`
+        if lab["kind"] == "val":
+            return lab.get("value") == 0
+        return False if 0 in lab.get("not", []) else None
+    if lab["kind"] != "cmp" or lab["op"] not in ("Eq", "Ne"):
+        return None
     if position_kind(f, P) == "index":
         if op_const(lab["b"]) == 0 and _is_var(f, lab["a"], P):
             return lab["truth"] if lab["op"] == "Eq" else not lab["truth"]
